@@ -42,10 +42,26 @@ pub fn draw_knobs(rng: &mut Rng) -> SimKnobs {
     let strategy = match rng.below(10) {
         0..=3 => Strategy::Random,
         4..=6 => Strategy::Sticky { keep: *rng.pick(&[128u8, 224, 250]) },
-        7..=8 => Strategy::Pct { depth: rng.range(1, 4) as u8, horizon: *rng.pick(&[50u32, 500, 5000]) },
-        _ => Strategy::Lowest,
+        7 => Strategy::Pct { depth: rng.range(1, 4) as u8, horizon: *rng.pick(&[50u32, 500, 5000, 100_000]) },
+        8 => Strategy::Bursty { q: *rng.pick(&[50u32, 1000, 20_000]) },
+        _ => {
+            if rng.bool() {
+                Strategy::Lowest
+            } else {
+                Strategy::Bursty { q: *rng.pick(&[200u32, 5000]) }
+            }
+        }
     };
-    SimKnobs { threads, steal_p, log_thin, strategy, sched_seed: rng.u64() }
+    // a third of the runs also preempt at control-flow edges inside the parallel closures
+    // (SanitizerCoverage hook in the instrumented walrus_par build), at varying density
+    let edge_thin = match rng.below(9) {
+        0 => 1,
+        1 => 5,
+        2 => 37,
+        3 => 401,
+        _ => 0,
+    };
+    SimKnobs { threads, steal_p, log_thin, strategy, sched_seed: rng.u64(), edge_thin }
 }
 
 pub fn draw_cfg(rng: &mut Rng, allow_dwarf: bool) -> CfgBits {
@@ -130,12 +146,22 @@ impl Prop for C09 {
             });
         }
         ops.push(Op::Emit);
+        let picked_len = picked.bytes.len();
         let case = Case {
             input: picked.iref,
             cfg,
             ops,
             ambient: Ambient { entropy: rng.u64(), arena_burn: *rng.pick(&[0u32, 0, 1, 3, 100, 70000]), heap_pad: rng.below(3) as u8 },
-            sim: draw_knobs(rng),
+            sim: {
+                let mut k = draw_knobs(rng);
+                // dense edge preemption only on inputs where it stays cheap
+                if picked_len > 60_000 && k.edge_thin != 0 {
+                    k.edge_thin = k.edge_thin.max(401);
+                } else if picked_len > 12_000 && k.edge_thin != 0 {
+                    k.edge_thin = k.edge_thin.max(37);
+                }
+                k
+            },
             schedule: None,
             recheck: rng.chance(1, 40),
         };
@@ -160,7 +186,28 @@ impl Prop for C09 {
             return out;
         };
         let replay = case.schedule.clone().map(|s| (s, true));
-        let par = life::run_par(env, &input, &case.cfg, &case.ops, &case.ambient, &case.sim, replay, tag);
+        let mut case = case;
+        let mut par = life::run_par(env, &input, &case.cfg, &case.ops, &case.ambient, &case.sim, replay, tag);
+        // a task preempted while holding a std lock blocks the single-threaded simulation (an artefact of
+        // cooperative scheduling, not of the code): retry with coarser preemption
+        for step in 0..2 {
+            let stuck = par.abort.as_deref().map(|m| m.starts_with("STUCK-IN-SIM")).unwrap_or(false);
+            if !stuck || case.schedule.is_some() {
+                break;
+            }
+            out.hit(if step == 0 { "stuck_under_edge_preemption_retried_without" } else { "stuck_under_log_preemption_retried_task_granular" });
+            if step == 0 && case.sim.edge_thin != 0 {
+                case.sim.edge_thin = 0;
+            } else {
+                case.sim.edge_thin = 0;
+                case.sim.log_thin = 0;
+            }
+            par = life::run_par(env, &input, &case.cfg, &case.ops, &case.ambient, &case.sim, None, tag);
+        }
+        if par.abort.as_deref().map(|m| m.starts_with("STUCK-IN-SIM")).unwrap_or(false) {
+            out.harness_error = Some("the simulated run made no progress even at task granularity (STUCK-IN-SIM)".into());
+            return out;
+        }
         let sim = par.sim.as_ref().unwrap();
         let mut failing_case = case.clone();
         failing_case.schedule = Some(sim.schedule.clone());
@@ -171,6 +218,11 @@ impl Prop for C09 {
         out.add("sim_steals", sim.pool.steals);
         out.add("sched_points_in_parse", sim.stats.sched_points_parse + sim.stats.sched_points_instr_loc);
         out.add("sched_points_in_emit", sim.stats.sched_points_emit);
+        out.add("sched_points_at_control_flow_edges", sim.stats.sched_points_edge);
+        out.add("control_flow_edges_executed_in_parallel_build", sim.stats.edges_seen);
+        if case.sim.edge_thin != 0 {
+            out.hit("runs_with_edge_level_preemption");
+        }
         out.add("context_switches", sim.stats.context_switches);
         out.add("scheduler_decisions", sim.stats.decisions);
         out.add(&format!("threads_{:02}", case.sim.threads), 1);
@@ -181,8 +233,11 @@ impl Prop for C09 {
             out.hit("runs_reaching_scope_or_bridge_entry_points");
         }
         if case.schedule.is_some() && sim.stats.replay_divergences > 0 {
-            out.harness_error = Some(format!("schedule replay diverged at {} decisions (uncontrolled nondeterminism)", sim.stats.replay_divergences));
-            return out;
+            // The recorded schedule cannot be followed: the code under test is not the code the file was
+            // recorded against (e.g. a repaired tree).  The verdict of the lenient replay (recorded decisions
+            // where they still apply) stands, flagged as such; exact reproduction is only promised on the tree
+            // the violation was found on.
+            out.hit("replay_schedule_diverged_code_differs_from_recording");
         }
         let parse_failed = matches!(tser.steps.first(), Some(StepOut::Parsed { ok: false, .. }));
         if parse_failed {
@@ -281,6 +336,16 @@ impl Prop for C09 {
             d.schedule = None;
             v.push(d);
         }
+        if c.sim.edge_thin != 0 {
+            let mut d = c.clone();
+            d.sim.edge_thin = 0;
+            d.schedule = None;
+            v.push(d);
+            let mut d = c.clone();
+            d.sim.edge_thin = c.sim.edge_thin.saturating_mul(8);
+            d.schedule = None;
+            v.push(d);
+        }
         if c.sim.log_thin != 0 {
             let mut d = c.clone();
             d.sim.log_thin = 0;
@@ -343,7 +408,7 @@ impl Prop for C09 {
     fn assumptions(&self) -> Vec<String> {
         vec![
             "rayon-core is replaced by a stub that implements join_context/join/current_num_threads/current_thread_index/in_place_scope on shuttle; the real work-stealing pool is exercised only by the Miri leg".into(),
-            "preemption inside a task happens only at log records and on_instr_loc calls (code between two such points is atomic in this engine)".into(),
+            "preemption inside a task happens at log records, on_instr_loc calls and (a third of the runs) at every k-th control-flow edge of the instrumented parallel walrus build; code of OTHER crates (std, rayon, id-arena) is atomic between two such points".into(),
             "pool widths 1..16; error identity on rejection is not compared, only the decision".into(),
         ]
     }
